@@ -81,7 +81,7 @@ fn nontrivial(s: &str) -> bool {
 }
 
 pub fn run(c: &Ctx) {
-    c.set_rule("exhaustive: every string over {'/','.','a','b'} up to length 10 (quick) / 11 (thorough), every sequence of up to 7/8 components from {.., ., a, ab.., ''} (relative, rooted, with a trailing separator), every byte string over {'/','.','a',0xE9,0xFF} up to length 6 / 7 that is not valid UTF-8 (reference applied byte-wise), then seeded random strings <=48 symbols over an adversarial alphabet (multi-byte, '~', '$', ':', NUL, newline). Oracle: independent port of Go path.Clean + idempotence + absoluteness + non-empty. Non-trivial = input containing at least one '..' component and one normal component; distinct by input string.");
+    c.set_rule("exhaustive: every string over {'/','.','a','b'} up to length 10 (quick) / 11 (thorough), every sequence of up to 7/8 components from {.., ., a, ab.., ''} (relative, rooted, with a trailing separator), every byte string over {'/','.','a',0xE9,0xFF} up to length 6 / 7 that is not valid UTF-8 (reference applied byte-wise), fixed deep inputs (200-1000 components of names and '..' in eleven arrangements) and scheme-, home- and variable-looking prefixes, then seeded random strings <=48 symbols over an adversarial alphabet (multi-byte, '~', '$', ':', NUL, newline). Oracle: independent port of Go path.Clean + idempotence + absoluteness + non-empty. Non-trivial = input containing at least one '..' component and one normal component; distinct by input string.");
     c.assume("ref_clean is a faithful port of Go's path.Clean (checked against Go's own cleantests table in harness unit tests)");
     let max_len = c.tier.pick(10, 11);
     let n = count_upto(4, max_len);
@@ -132,6 +132,41 @@ pub fn run(c: &Ctx) {
             c.judge("clean", &s, check_clean(&s));
         }
     });
+    // deep and long inputs (counters and buffers sized for "usual" paths), and inputs that look like something else
+    // (clean knows nothing about schemes, home symbols or variables)
+    {
+        let mut deep: Vec<String> = vec![];
+        for n in [200usize, 255, 256, 257, 300, 513, 1000] {
+            let names = vec!["a"; n].join("/");
+            let ups = vec![".."; n].join("/");
+            deep.push(names.clone());
+            deep.push(format!("/{}", names));
+            deep.push(format!("{}/..", names));
+            deep.push(format!("/{}/../..", names));
+            deep.push(format!("{}/{}", names, ups));
+            deep.push(format!("{}/{}/..", names, ups));
+            deep.push(format!("/{}/{}/../x", names, ups));
+            deep.push(ups.clone());
+            deep.push(format!("{}/a/..", ups));
+            deep.push(format!("{}/{}", ups, names));
+            deep.push(vec!["a/./b/.."; n].join("//"));
+        }
+        for pre in ["http://", "https://", "file://", "ftp://", "HTTP://", "File://", "ntp://", "~/", "$HOME/", "${X}/"] {
+            for rest in ["foo", "..", "a/..", "a/../..", "./a//b/", "", "/"] {
+                deep.push(format!("{}{}", pre, rest));
+                deep.push(format!("/{}{}", pre, rest));
+                deep.push(format!("a/{}{}", pre, rest));
+            }
+        }
+        par_for(deep.len() as u64, 4, |i| {
+            let s = &deep[i as usize];
+            c.eval(1);
+            c.nontrivial(fp(s));
+            c.class("deep-or-scheme-like");
+            mark("clean", &s.chars().take(200).collect::<String>());
+            c.judge("clean", s, check_clean(s));
+        });
+    }
     // byte strings that are not valid UTF-8: every sequence over {'/', '.', 'a', 0xE9, 0xFF} up to length 6 / 7
     let balpha: [u8; 5] = [b'/', b'.', b'a', 0xE9, 0xFF];
     let blen = c.tier.pick(6u32, 7);
